@@ -659,19 +659,24 @@ PmStep(p) ==
             /\ op.g \in gh.released[p]
             /\ PmSet(p, rest) /\ UNCHANGED <<fsm, conn, out, gh>>
        [] op.op = "disw" ->
-            \* disableFSM returns once the FSM goroutine has finished
+            \* disableFSM returns once the FSM goroutine has finished.  If the FSM was stopped while it was
+            \* offering a damping error (it never got to report it), the PM collects the error: it abandons
+            \* what it was doing and damps the peer (C12).  With KnownD14 the error may instead be lost, as in
+            \* the code before the repair.
             /\ fsm[p][op.d].pc = "dead"
             /\ fsm' = [fsm EXCEPT ![p][op.d] = NoFsm]
             /\ LET lost == fsm[p][op.d].lostDamp /\ ~m.closing
                            /\ ~(\E i \in 1..Len(rest) : rest[i].op = "damp")
                    base == [m EXCEPT !.has[op.d] = FALSE, !.st[op.d] = "disabled"]
-                   strict == <<PDis("in"), PDis("out"), PDamp>>
+                   strict == PmGateHere(p, PmGateName("err", op.d)) \o <<PDis("in"), PDis("out"), PDamp>>
                IN \/ /\ lost
                      /\ pm' = [pm EXCEPT ![p] = [base EXCEPT !.todo = strict, !.pc = "run"]]
+                     /\ gh' = GhLog(p, PmGateName("err", op.d))
                   \/ /\ ~lost \/ KnownD14
                      /\ pm' = [pm EXCEPT ![p] = [base EXCEPT !.todo = rest,
                                                   !.pc = IF rest = <<>> THEN "sel" ELSE "run"]]
-            /\ UNCHANGED <<conn, out, gh>>
+                     /\ UNCHANGED gh
+            /\ UNCHANGED <<conn, out>>
        [] op.op = "apv" ->
             \/ /\ m.closing                     \* sendTransitionToFSM gives up: peer is stopping
                /\ PmSet(p, rest) /\ UNCHANGED <<fsm, conn, out, gh>>
